@@ -38,6 +38,10 @@ fn inflate(src: Bytes) -> io::Result<Block> {
     use crate::io::reader::frame::parse_block;
 
     let mut block = Block::default();
+    #[cfg(noodles_verif)]
+    crate::verif::hit(crate::verif::Site::AsyncInflateTaskStart, &src);
     parse_block(&src, &mut block)?;
+    #[cfg(noodles_verif)]
+    crate::verif::hit(crate::verif::Site::AsyncInflateTaskEnd, &src);
     Ok(block)
 }
